@@ -20,6 +20,7 @@ type c05Operand struct {
 	Lit   func(slot string) Expr // expression denoting the operand in place (slot distinguishes unset variables)
 	JSON  string                 // document text, "" when JSON cannot express it
 	NoVar bool                   // cannot be stored in a variable (functions)
+	Path  func(base Expr) Expr   // document mode: how the operand is reached from its field (nil: the field itself)
 }
 
 func numOp(text string) c05Operand {
@@ -43,7 +44,7 @@ func c05Operands(thorough bool) []c05Operand {
 	for _, t := range []string{"0", "-0", "1", "-1", "2", "3", "0.5", "-2.5", "7", "1000000000000000000000", "0.0000001", "9007199254740993"} {
 		ops = append(ops, numOp(t))
 	}
-	for _, s := range []string{"", "a", "b", "abc", "0", "1", "1.0", "-1", " 1", "1 ", "1e3", "0x10", "10", "9", "é", "(", "a+"} {
+	for _, s := range []string{"", "a", "b", "abc", "0", "1", "1.0", "-1", " 1", "1 ", "1e3", "0x10", "10", "9", "é", "(", "a+", "1.14", "2.28", "0.1"} {
 		ops = append(ops, strOp(s))
 	}
 	ops = append(ops,
@@ -57,6 +58,9 @@ func c05Operands(thorough bool) []c05Operand {
 		c05Operand{Name: "{a:1}", Lit: func(string) Expr { return &ObjLit{Keys: []string{"a"}, Vals: []Expr{N("1")}} }, JSON: `{"a":1}`},
 		c05Operand{Name: "/a/", Lit: func(string) Expr { return &RegexLit{"a"} }},
 		c05Operand{Name: "/^$/", Lit: func(string) Expr { return &RegexLit{"^$"} }},
+		// values that are null but carry bookkeeping inside the implementation: a read past the end of an array, a missing member
+		c05Operand{Name: "null:index past the end", Lit: func(string) Expr { return Idx(Arr_(N("10"), N("20")), N("3")) }, JSON: "[10,20]", Path: func(b Expr) Expr { return Idx(b, N("3")) }},
+		c05Operand{Name: "null:missing member", Lit: func(string) Expr { return Mem(&Paren{X: &ObjLit{Keys: []string{"k"}, Vals: []Expr{N("1")}}}, "zz") }, JSON: `{"k":1}`, Path: func(b Expr) Expr { return Mem(Mem(b, "zz"), "deeper") }},
 		c05Operand{Name: "fn", Lit: func(string) Expr { return V("fn") }, NoVar: true},
 		c05Operand{Name: "printf", Lit: func(string) Expr { return V("printf") }, NoVar: true},
 	)
@@ -133,6 +137,12 @@ func c05Build(s c05Spec, ops []c05Operand) *progCase {
 		doc += "}"
 		files = []inFile{{"in.json", doc}}
 		le, re = Mem(V("$"), "l"), Mem(V("$"), "r")
+		if L.Path != nil {
+			le = L.Path(le)
+		}
+		if !unaryForm && R.Path != nil {
+			re = R.Path(re)
+		}
 	}
 	if s.Form == "incdec" && s.Mode == 0 {
 		return nil
@@ -258,11 +268,11 @@ func c05Stream(c *fw.Ctx, form, op string, rev bool, ops []c05Operand) *fw.Viola
 	prog := &Program{Rules: []*Rule{{Body: Blk(Ex(Asg("=", V("r"), e)), c05Show(V("r")))}}}
 	var good, bad []string
 	for li, L := range ops {
-		if L.JSON == "" {
+		if L.JSON == "" || L.Path != nil {
 			continue
 		}
 		for ri, R := range ops {
-			if R.JSON == "" || (unary && ri > 0) {
+			if R.JSON == "" || R.Path != nil || (unary && ri > 0) {
 				continue
 			}
 			_ = li
@@ -323,6 +333,43 @@ func c05Stream(c *fw.Ctx, form, op string, rev bool, ops []c05Operand) *fw.Viola
 	return v
 }
 
+// c05NumStrings: every string d.dd / dd.dd used as a number must be the nearest double of its digits (one site, one run).
+func c05NumStrings(c *fw.Ctx, lo, hi int) *fw.Violation {
+	var sb strings.Builder
+	var want strings.Builder
+	sb.WriteByte('[')
+	for i := lo; i < hi; i++ {
+		t := fmt.Sprintf("%d.%02d", i/100, i%100)
+		if i > lo {
+			sb.WriteByte(',')
+		}
+		sb.WriteString(`"` + t + `"`)
+		f, _ := strconv.ParseFloat(t, 64)
+		want.WriteString("true false false " + FormatNum(f) + " true true\n")
+	}
+	sb.WriteByte(']')
+	s := drive.Spec{Program: "{ r = $ * 1; print r is number, r is string, r is bool, r, $ == r, -$ == 0 - r }", Files: []drive.File{{Name: "in.json", Data: sb.String()}}, Budget: 2_000_000}
+	o := run(c, s)
+	c.Traces++
+	c.Transitions += int64(hi - lo)
+	if o.Kind == drive.KNone && o.Stdout == want.String() {
+		return nil
+	}
+	gl, wl := strings.Split(o.Stdout, "\n"), strings.Split(want.String(), "\n")
+	note := ""
+	for i := range wl {
+		if i >= len(gl) || gl[i] != wl[i] {
+			g := ""
+			if i < len(gl) {
+				g = gl[i]
+			}
+			note = fmt.Sprintf("string %q: want %q got %q", fmt.Sprintf("%d.%02d", (lo+i)/100, (lo+i)%100), wl[i], g)
+			break
+		}
+	}
+	return &fw.Violation{What: "a numeric string used as a number is not the nearest double of its digits", Detail: detail{Program: s.Program, Note: note, Got: drive.Outcome{Kind: o.Kind, Msg: o.Msg}}}
+}
+
 func c05Kind(o c05Operand) string {
 	n := o.Name
 	switch {
@@ -330,6 +377,8 @@ func c05Kind(o c05Operand) string {
 		return "bool"
 	case n == "null" || n == "unset" || n == "fn" || n == "printf":
 		return n
+	case strings.HasPrefix(n, "null:"):
+		return "null"
 	case strings.HasPrefix(n, "\""):
 		return "str"
 	case strings.HasPrefix(n, "["):
@@ -355,6 +404,10 @@ func init() {
 		Run: func(c *fw.Ctx, u int) {
 			ops := c05Operands(c.Thorough())
 			if u == len(ops) {
+				for lo := 0; lo < 10000; lo += 1000 {
+					lo := lo
+					c.Do(func() any { return c05Spec{Form: "numstr", L: lo} }, func() *fw.Violation { return c05NumStrings(c, lo, lo+1000) })
+				}
 				for _, rev := range []bool{false, true} {
 					for _, op := range c05BinOps {
 						s := c05Spec{Form: "stream-bin", Op: op, Rev: rev}
@@ -407,6 +460,9 @@ func init() {
 			var s c05Spec
 			if !unmarshal(raw, &s) {
 				return nil
+			}
+			if s.Form == "numstr" {
+				return c05NumStrings(c, s.L, s.L+1000)
 			}
 			if strings.HasPrefix(s.Form, "stream-") {
 				return c05Stream(c, strings.TrimPrefix(s.Form, "stream-"), s.Op, s.Rev, c05Operands(c.Thorough()))
